@@ -326,7 +326,7 @@ func runC18(run *core.Run) {
 	}
 	// boundaries
 	var bs []string
-	for _, ch := range []string{"a", "é", "_"} {
+	for _, ch := range []string{"a", "é", "_", "日", "😀"} { // 1, 2, 3 and 4 bytes per code point
 		for _, n := range []int{1, 2, 49, 50, 51, 253, 254, 255, 256, 257} {
 			bs = append(bs, strings.Repeat(ch, n))
 			for _, m := range []int{1, 2, 49, 50, 51} {
@@ -358,6 +358,43 @@ func runC18(run *core.Run) {
 	lim("object-257", v.ValidateObject, "t:"+strings.Repeat("a", 255), false)
 	lim("object-2", v.ValidateObject, "a:", false)
 	lim("object-3", v.ValidateObject, "a:b", true)
+	// long strings of mixed byte widths around every limit (the limits count code points, not bytes)
+	nl := run.N(3000, 60000)
+	widths := []rune{'a', 'é', '日', '😀', '_', '-', 0x10FFFF, 0x7FF, 0x800, 0xFFFF}
+	core.Parallel(nl, func(i int) {
+		r := run.Rng("c18-long", i)
+		L := []int{50, 254, 256, 100, 200}[r.Intn(5)] + r.Intn(6) - 3
+		mono := r.Intn(3) == 0
+		w := widths[r.Intn(len(widths))]
+		part := func(n int) string {
+			var sb strings.Builder
+			for k := 0; k < n; k++ {
+				if !mono {
+					w = widths[r.Intn(len(widths))]
+				}
+				sb.WriteRune(w)
+			}
+			return sb.String()
+		}
+		var s string
+		switch r.Intn(6) {
+		case 0:
+			s = part(L)
+		case 1:
+			s = part(L) + ":*"
+		case 2:
+			s = "t:" + part(L-2)
+		case 3:
+			k := 1 + r.Intn(L)
+			s = part(k) + ":" + part(L-k)
+		case 4:
+			s = "t:i#" + part(L)
+		case 5:
+			s = part(L) + ":i#" + part(1+r.Intn(52))
+		}
+		checkValidators(run, s)
+		run.Count("long_mixed_width_strings", 1)
+	})
 	// random Unicode
 	n := run.N(3000, 60000)
 	pool := []rune{':', '#', '@', '*', ' ', '\t', '\n', '\r', '\f', 'a', 'Z', '0', '_', '|', '.', '+', '-', '/', 'é', '日', ' ', ' ', '\v', 0, '\\', '"', '$', '😀'}
